@@ -62,6 +62,10 @@ def _smin(lst):
     return m
 
 
+def _tree_of(v):
+    return v.tree if hasattr(v, "tree") else v
+
+
 def h_vector(B, struct, cplx):
     J = jft()
     a, b = build(B, struct, "a", cplx), build(B, struct, "b", cplx)
@@ -113,6 +117,11 @@ def h_vector(B, struct, cplx):
         ops["s>=a (reflected)"] = (lambda a, b, s: J.where(s >= V(a), one(a), zero(a)).tree, [ind(u <= s) for u in fa])
         ops["where(a>0,a,s)"] = (lambda a, b, s: J.where(V(a) > 0., V(a), s).tree,
                                  [sc.ite(u > 0, u, s) if isinstance(u, sc.SR) else (u if u > 0 else s) for u in fa])
+        # scalar branches that have to be broadcast to the tree structure of the condition
+        ops["where(a>b,s,2s) (both branches scalar)"] = (lambda a, b, s: _tree_of(J.where(V(a) > V(b), s, 2. * s)),
+                                                        [sc.ite(u > v, s, 2 * s) if isinstance(u > v, sc.SB) else (s if u > v else 2 * s) for u, v in zip(fa, fb)])
+        ops["where(a>0,s,a) (scalar first branch)"] = (lambda a, b, s: _tree_of(J.where(V(a) > 0., s, V(a))),
+                                                      [sc.ite(u > 0, s, u) if isinstance(u, sc.SR) else (s if u > 0 else u) for u in fa])
     B.is_true("size == number of elements of the flat array", J.size(V(jax.tree_util.tree_map(lambda l: np.zeros(np.shape(l)), a))) == len(fa))
     for name, (fn, want) in ops.items():
         got = jcall(B, fn, a, b, s)
